@@ -21,6 +21,8 @@ _F = {"ev": "finalize", "w": "w1", "sl": "s1", "stage": "S2"}
 _P = {"ev": "post", "sl": "s1"}
 _M = {"ev": "mine", "txs": ["s1"]}
 _M0 = {"ev": "mine", "txs": []}
+_MISSING = [_I, _L, _R, _F, _P, _M, {"ev": "refresh", "w": "w2"}, {"ev": "refresh", "w": "w1"},
+            {"ev": "init_send", "w": "w1", "sl": "s2", "amt": 1000}, {"ev": "diverge", "w": "w2", "kind": "delete", "key": "a0c0"}]
 # directed scenarios: always executed with ALL their schedules.  The first 8 are, in this
 # order, the scenarios of spec/MCConc.tla: for them the section-level model predicts which
 # schedules are serializable (Layer M of C20).
@@ -40,6 +42,10 @@ SCRIPTED = [
     {"prefix": [_I, _L, _R, _F, _P], "r": {"ev": "refresh", "w": "w2", "via": "updater"}, "ops": [_M]},
     {"prefix": [_I], "r": {"ev": "refresh", "w": "w1", "via": "updater"}, "ops": [_L, {"ev": "cancel", "w": "w1", "id": 2}]},
     {"prefix": [_I, _L, _R], "r": {"ev": "refresh", "w": "w1", "via": "updater"}, "ops": [_F, _P]},
+    # R has something to RESTORE (a record of the recipient is missing) while an operation that takes a new key
+    # (a second receive) runs in between: records, log entries and key indices of the two must both survive
+    {"prefix": _MISSING, "r": {"ev": "scan", "w": "w2", "start": 1, "del": False}, "ops": [{"ev": "receive", "w": "w2", "sl": "s2"}]},
+    {"prefix": _MISSING, "r": {"ev": "refresh", "w": "w2"}, "ops": [{"ev": "receive", "w": "w2", "sl": "s2"}]},
 ]
 
 
@@ -142,7 +148,7 @@ def run(tier, replay_path, t0):
                     if rk == "scan":
                         r.update({"start": 1, "del": rnd.random() < 0.5})
                     scen.append({"prefix": pre, "r": r, "ops": ops})
-        keep = set(range(len(SCRIPTED))) if tier == "thorough" else {0, 1, 4, 6, 7, 9, 10, 12}
+        keep = set(range(len(SCRIPTED))) if tier == "thorough" else {0, 1, 4, 6, 7, 9, 10, 12, 13, 14}
         scen = [dict(x, scripted=True, modelled=(i + 1 if i < 8 else 0)) for i, x in enumerate(SCRIPTED) if i in keep] + scen
         setup = p["setup"]
     # pass 1: count the sections of R in each scenario (no schedules yet)
@@ -203,6 +209,14 @@ def run(tier, replay_path, t0):
     keys = {}
     for v in viols:
         e = events[v["line"] - 1]
+        if v["m"] == "KeyIndexSerial":
+            # a key index no serial order leaves: none of the listed design findings produces that
+            key = "C20/KeyIndexSerial/%s" % e["r"]
+            if key not in keys:
+                keys[key] = {"scenario": dict({k: scen[e["b"]][k] for k in ("prefix", "r", "ops")}, modelled=scen[e["b"]].get("modelled", 0)), "sched": e["sched"],
+                             "setup": setup, "opres": e["opres"], "rres": e["rres"], "count": 0, "fields": "idx.child", "opkinds": e["opkinds"]}
+            keys[key]["count"] += 1
+            continue
         sig, detail = diff_signature(e["final"], e["serials"], e["w"]) if v["m"] == "Serializable" else ("hang", "")
         # the identity of a finding is its root cause, as far as the schedule shows it:
         #  - a block arrived strictly inside a refresh (its sections then use different chain views)
